@@ -75,6 +75,10 @@ def run_task(task):
     net = symnet.family(task["family"])
     prefix = tuple(task["params"]["prefix"])
     vs, cs = declare(prefix, net.n, task["params"].get("cfgmax", 5))
+    if task["params"].get("slice") == "regen":
+        # the retained-set regeneration branch: threshold 0/1, greedy ASP optimisation on
+        k = len(prefix)
+        cs += [z3.Int("cfg_thr") >= 0, z3.Int("cfg_thr") <= 1, z3.Bool(f"h{k}_greedy")]
     H = hist.SymH(net.n)
     selftest = task["params"].get("selftest")
 
@@ -108,9 +112,9 @@ def tasks(tier, seed, selftest=False):
     T = []
     q = tier == "quick"
 
-    def add(fam, prefix, box, cube_k=0, nbits=0, order="canonical"):
-        base = {"prop": PROP, "family": fam, "label": f"{fam}/{'+'.join(prefix) or 'fresh'}/{order}", "timebox": box, "seed": seed,
-                "params": {"prefix": list(prefix), "selftest": selftest, "order": order}}
+    def add(fam, prefix, box, cube_k=0, nbits=0, order="canonical", slice_=None):
+        base = {"prop": PROP, "family": fam, "label": f"{fam}/{'+'.join(prefix) or 'fresh'}/{order}" + (f"/{slice_}" if slice_ else ""), "timebox": box, "seed": seed,
+                "params": {"prefix": list(prefix), "selftest": selftest, "order": order, "slice": slice_}}
         if cube_k:
             for cube in common.cubes(nbits, cube_k):
                 T.append(dict(base, cube=cube))
@@ -122,6 +126,11 @@ def tasks(tier, seed, selftest=False):
     for p in PREFIXES:
         add("U2", p, 40 if q else 1800)
         add("D3", p, 25 if q else 1800)
+    # slices the solver is steered into: networks whose negative feedback vertex set is everything (N3: every variable
+    # negatively auto-regulated), with the regeneration branch forced (threshold <= 1, greedy optimisation on)
+    for p in ((), ("succ",), ("fullbfs",)):
+        add("N3", p, 30 if q else 1200, slice_="regen")
+        add("D3", p, 15 if q else 900, slice_="regen")
     if not q:
         for p in ((), ("succ",), ("fullbfs",)):
             add("U2", p, 900, order="reversed")
@@ -135,7 +144,7 @@ def main(tier, seed, t0, selftest=False):
                          bounds={"node": "any node (symbolic id) after a prefix history from " + str(PREFIXES),
                                  "options": "greedy_asp_minification, simulation_minification symbolic flags (pint off)",
                                  "config": "each of the 4 numeric fields in {default} ∪ 0..5, symbolic",
-                                 "families": "U2, D3 (+U3 cubes, reversed oracle order in thorough); time-boxed",
+                                 "families": "U2, D3, N3 (3 variables, each negatively auto-regulated: NFVS = all) with the regeneration slice (threshold 0/1, greedy on); + U3 cubes, reversed oracle order (thorough); time-boxed",
                                  "heuristics": "NFVS and Random(123) shuffle take their real values (REG concretised)"},
                          assumptions=["contract stubs of DESIGN.md §8 validated on every representative",
                                       "skip nodes: candidate soundness only (their coverage is the subject of C05)"])
